@@ -235,22 +235,40 @@ Print Assumptions filterbuf_failing_sink_exact.
 Theorem filter_escape_failing_sink : forall room pieces,
   filter_escape_sink room pieces = (firstn room (escape (concat pieces)), Nat.leb (length (escape (concat pieces))) room).
 Proof. exact filter_escape_sink_exact. Qed.
-(* urlencode: the sink gets exactly the first bytes, but the code never reports the failure (finding C15/2) *)
 Theorem filter_urlencode_failing_sink : forall room pieces,
-  filter_urlencode_sink room pieces = (firstn room (urlencode (concat pieces)), true).
+  filter_urlencode_sink room pieces = (firstn room (urlencode (concat pieces)), Nat.leb (length (urlencode (concat pieces))) room).
 Proof. exact filter_urlencode_sink_exact. Qed.
-(* full-strength statements, REFUTED by the faithful model and replayed on the implementation (docs/C15.md, findings 1 and 2):
-     "urlencode(b,e,streambuf&) reports failure when the sink is too small"
-     "after a filter the stream is in failed state when the sink failed / when it had failed before" *)
-Theorem urlencode_streambuf_failure_report_refuted : exists room s,
-  (room < length (urlencode s))%nat /\ snd (urlencode_stream room s) = true.
-Proof. exists 0%nat, [97]. split; [cbn; lia|reflexivity]. Qed.
-Theorem filter_stream_error_state_refuted : exists room pieces,
-  snd (filter_escape_sink room pieces) = false /\ filter_escape_stream_ok room pieces = true.
-Proof. exists 0%nat, [[60]]. split; vm_compute; reflexivity. Qed.
-Theorem filter_revives_failed_stream_refuted : forall (F : list N -> list N) v, snd (filter_on_failed_stream F v) = true.
-Proof. intros; reflexivity. Qed.
-Print Assumptions filter_stream_error_state_refuted.
+(* util::urlencode(b,e,streambuf&): the sink gets the first room bytes and the call reports success exactly when the
+   whole encoding reached the sink (repaired in /repo dd45f86; before, the statement was refuted) *)
+Theorem urlencode_streambuf_reports_failure : forall room s,
+  urlencode_stream room s = (firstn room (urlencode s), Nat.leb (length (urlencode s)) room) /\
+  (snd (urlencode_stream room s) = true <-> fst (urlencode_stream room s) = urlencode s).
+Proof. exact urlencode_stream_reports. Qed.
+(* after a template filter the stream is in good state exactly when the whole filtered value fitted into the sink
+   (repaired in /repo 80bcd05: the error state survives the re-seating of the stream buffer) *)
+Theorem filter_stream_state_reports_failure : forall room pieces,
+  filter_escape_stream_ok room pieces = Nat.leb (length (escape (concat pieces))) room /\
+  filter_urlencode_stream_ok room pieces = Nat.leb (length (urlencode (concat pieces))) room /\
+  filter_base64_stream_ok room pieces = Nat.leb (length (b64encode (concat pieces))) room.
+Proof. exact filter_stream_ok_exact. Qed.
+(* a filter applied to a stream that has already failed writes nothing, whatever the value, its pieces and the sink,
+   and leaves the stream failed (same repair) *)
+Theorem filter_on_failed_stream_writes_nothing : forall (F : list N -> list N) (room : nat),
+  (forall a b, F (a ++ b) = F a ++ F b) -> forall pieces, fbs_run_failed F room pieces = ([], false).
+Proof. exact fbs_run_failed_nothing. Qed.
+Theorem filters_on_failed_stream_write_nothing : forall v,
+  filter_on_failed_stream escape v = ([], false) /\ filter_on_failed_stream urlencode v = ([], false) /\
+  filter_base64_on_failed_stream v = ([], false).
+Proof. exact filter_on_failed_stream_nothing. Qed.
+Print Assumptions filters_on_failed_stream_write_nothing.
+(* the witnesses of the former refutations, now with the correct results (also replayed on the implementation:
+   corpus/C15/regress.case, docs/C15_finding_1.case, docs/C15_finding_2.case) *)
+Example repaired_witnesses_regression :
+  urlencode_stream 0 [97] = ([], false) /\
+  filter_escape_sink 0 [[60]] = ([], false) /\ filter_escape_stream_ok 0 [[60]] = false /\
+  filter_urlencode_sink 2 [[32]] = ([37; 50], false) /\ filter_urlencode_stream_ok 2 [[32]] = false /\
+  filter_on_failed_stream escape [60; 97; 62] = ([], false).
+Proof. vm_compute. repeat split. Qed.
 Theorem filter_escape_failing_sink_prefix : forall room pieces, exists rest,
   escape (concat pieces) = fst (filter_escape_sink room pieces) ++ rest /\
   (snd (filter_escape_sink room pieces) = true -> rest = []).
